@@ -224,13 +224,17 @@ where
 {
     type Stream = Self;
 
-    fn into_parts(self) -> (Vector<VectorDiffContainerStreamElement<S>>, Self::Stream) {
+    fn into_parts(mut self) -> (Vector<VectorDiffContainerStreamElement<S>>, Self::Stream) {
         // Hand over the current view, not the replica of the underlying vector: nothing until
         // the first count has arrived, then everything after the first `count` values.
         let values = match self.count {
             Some(count) => self.buffered_vector.clone().skeep(count),
             None => Vector::new(),
         };
+
+        // The view handed over already contains the effect of the diffs that are still
+        // waiting in `ready_values`; handing them out afterwards would apply them twice.
+        while S::Item::pop_from_skip_buf(&mut self.ready_values).is_some() {}
 
         (values, self)
     }
